@@ -132,27 +132,38 @@ theorem addCID_rel (k : Nat) (rc : List Tree) (s : St) : R s (addCID env k rc s)
     · rename_i s1 heq; rw [heq] at h1; exact h1
     · rename_i e s1 heq; rw [heq] at h1; exact h1
 
-theorem doHook_rel {f : F} (hf : FRel R f) (cfg : Cfg) (v : LoopVars) (s : St) :
-    R s (doHook env f cfg v s).2 := by
+theorem hookLead_rel (fuel : Nat) (s : St) : R s (hookLead env fuel s).2 := by
+  unfold hookLead; split
+  · exact addCID_rel h fuel [] s
+  · exact h.refl _
+
+theorem doHook_rel {f : F} (hf : FRel R f) (fuel : Nat) (cfg : Cfg) (v : LoopVars) (s : St) :
+    R s (doHook env f fuel cfg v s).2 := by
   unfold doHook
   split
-  · split
-    · exact h.refl _
-    · rename_i sc _
-      have h1 := hf sc s
+  · have h0 := hookLead_rel h fuel s
+    split
+    · rename_i e s0 heq; rw [heq] at h0; exact h0
+    · rename_i lead s0 heq
+      rw [heq] at h0
       split
-      · rename_i e s1 heq; rw [heq] at h1; exact h1
-      · rename_i s1 heq; rw [heq] at h1; exact h1
-      · rename_i t s1 heq
-        rw [heq] at h1
-        simp only
+      · exact h0
+      · rename_i sc _
+        have h1 := hf sc s0
         split
-        · split
-          · exact h1
+        · rename_i e s1 heq1; rw [heq1] at h1; exact h.trans h0 h1
+        · rename_i s1 heq1; rw [heq1] at h1
+          exact h.trans h0 (h.trans h1 (restoreRc_rel h _ _))
+        · rename_i t s1 heq1
+          rw [heq1] at h1
+          have h01 := h.trans h0 h1
+          split
           · split
-            · exact h1
-            · exact h.trans h1 (restore_rel h _ _)
-        · exact h.trans h1 (h.ev _ _ (fun e => by cases e))
+            · exact h01
+            · split
+              · exact h01
+              · exact h.trans h01 (h.trans (restore_rel h _ _) (restoreRc_rel h _ _))
+          · exact h.trans h01 (h.trans (h.ev _ _ (fun e => by cases e)) (restoreRc_rel h _ _))
   · exact h.refl _
 
 theorem matchedStep_rel (cfg : Cfg) (startT : Option Tree) (sn : Option (Option Name))
@@ -184,10 +195,10 @@ theorem blockLoop_rel {f : F} (hf : FRel R f) (cfg : Cfg) (classes : List Cls)
     split
     · exact h.refl _
     · rename_i cls _
-      have h1 := doHook_rel h hf cfg v s
+      have h1 := doHook_rel h hf k cfg v s
       split
       · rename_i e s1 heq; rw [heq] at h1; exact h1
-      · rename_i t s1 heq; rw [heq] at h1; exact h.trans h1 (ih _ _ _)
+      · rename_i ts s1 heq; rw [heq] at h1; exact h.trans h1 (ih _ _ _)
       · rename_i s0 heq
         rw [heq] at h1
         have h2 := callCatch_rel hf cls s0
